@@ -177,6 +177,10 @@ def perm_lists(entries, maxlen):
 
 # ------------------------------------------------------------------ C04
 
+# entries that are neither regular files nor directories: like directories they are not part of the collection of regular files
+SPECIALS = [{"p": "q", "k": "fifo", "c": ""}, {"p": "n", "k": "dev", "c": ""}, {"p": "ld", "k": "ldir", "c": ""}]
+
+
 def c04_scenarios(tier, seed):
     rnd = random.Random(seed)
     if tier == "quick":
@@ -190,7 +194,7 @@ def c04_scenarios(tier, seed):
     entries = paths + ["d"]
     fss = []
     for cs in itertools.product(contents, repeat=len(paths)):
-        fss.append([{"p": p, "k": "reg", "c": c} for p, c in zip(paths, cs)] + [{"p": "d", "k": "dir", "c": ""}])
+        fss.append([{"p": p, "k": "reg", "c": c} for p, c in zip(paths, cs)] + [{"p": "d", "k": "dir", "c": ""}] + SPECIALS)
     if tier != "quick":
         rnd.shuffle(fss)
         fss = fss[:200]
@@ -202,6 +206,8 @@ def c04_scenarios(tier, seed):
                 v[i]["c"] = c
                 fss.append(v)
     lists = perm_lists(entries, maxlen)
+    for sp in ("q", "n", "ld"):
+        lists += [[sp], ["a", sp], [sp, "a", "b"], ["d/a", sp, sp]]
     if tier != "quick":
         lists += [list(t) for t in rnd.sample(list(itertools.permutations(entries, 4)), 100)]
         lists += [list(t) for t in rnd.sample(list(itertools.product(entries, repeat=5)), 100)]
@@ -408,7 +414,7 @@ def c18_scenarios(tier, seed):
 
     base = [{"p": "f%d" % i, "k": "reg", "c": "c%d" % (i % 3)} for i in range(6)] + [
         {"p": "d", "k": "dir", "c": ""}, {"p": "m", "k": "absent", "c": ""}, {"p": "l", "k": "dangling", "c": ""},
-        {"p": "v", "k": "reg", "c": "gone"}, {"p": "m2", "k": "absent", "c": ""}]
+        {"p": "v", "k": "reg", "c": "gone"}, {"p": "m2", "k": "absent", "c": ""}] + SPECIALS
     good = ["f%d" % i for i in range(6)]
     # sizes around the worker-count boundary, with duplicates
     for n in sorted({0, 1, 2, ncpu - 1, ncpu, ncpu + 1, 2 * ncpu + 1, 4 * ncpu}):
@@ -434,6 +440,12 @@ def c18_scenarios(tier, seed):
             lst = [good[i % 6] for i in range(n)]
             lst[a], lst[b] = "m", rnd.choice(["m2", "l", "v"])
             add(base, lst, vanish=["v"])
+    # entries that are neither regular files nor directories (a pipe nobody writes to, a device, a link to a directory)
+    for sp in ("q", "n", "ld"):
+        add(base, [sp])
+        add(base, ["f0", sp, "f1"])
+        add(base, [sp] * (ncpu + 2) + ["f0"])
+        add(base, [sp, "m"])
     add(base, ["d", "m"])
     add(base, ["m", "d", "f0"])
     add(base, ["m", "m", "m", "m"])
